@@ -806,7 +806,16 @@ class C03(SpecProp):
                   'PEG reading (every token consumed), no-output implies an error, into_result consistency; the real ParseResult '
                   'accessors compared on every case; the same contract for grammars with extensions (parseTopE)')
 
-    bins = ['h_str_rich', 'h_slice_rich', 'h_stream_rich', 'h_mstream_rich', 'h_kinds_rich']
+    bins = ['h_str_rich', 'h_slice_rich', 'h_stream_rich', 'h_mstream_rich', 'h_kinds_rich', 'h_pratt']
+
+    def custom_run(self, lines, tier, seed, jobs):
+        import vcheck
+        tot, fails = vcheck.run_cases(self.name, [l for l in lines if not l.startswith('PR ')], jobs=jobs,
+                                      timeout=900 if tier == 'quick' else 3600)
+        # the contract for Pratt parsers: an error-free result means the expression grammar matched the whole input (two binary
+        # operators in a row, a dangling operator … are rejected) — C09's tables, acceptance and tree against the reading
+        pratt_part('C03', lines, tier, seed, jobs, tot, fails, every=4)
+        return tot, fails
 
     def cases(self, tier, seed):
         lines = SpecProp.cases(self, tier, seed)
@@ -3028,6 +3037,38 @@ def wrap_all(g, kind):
     return go(g)
 
 
+
+def pratt_part(prop_name, lines, tier, seed, jobs, tot, fails, every=3):
+    """Pratt tables (C09's lines: trees with the span handed to every fold callback, acceptance, errors) run under another
+    property's name: every `every`-th table of the quick set, or the PR lines given (replay)"""
+    t = C09()
+    t.name = prop_name
+    given = [l for l in lines if l.startswith('PR ')]
+    if len(lines) < 10:
+        pl = given
+    else:
+        allp = t.cases('quick', seed)
+        keys = []
+        for l in allp:
+            k = l.split(' ')[1][1:-1]
+            if k not in keys:
+                keys.append(k)
+        keep = set(keys[::every])
+        pl = [l for l in allp if l.split(' ')[1][1:-1] in keep]
+    if not pl:
+        return
+    t2, f2 = t.custom_run(pl, tier, seed, jobs)
+    for k in ('pairs', 'pred_fail', 'corr_disagree', 'nontrivial'):
+        tot[k] += t2[k]
+    for k, v in t2['outcomes'].items():
+        tot['outcomes']['pratt:' + k] = tot['outcomes'].get('pratt:' + k, 0) + v
+    for k, v in t2.get('known', {}).items():
+        tot.setdefault('known', {})[k] = tot.get('known', {}).get(k, 0) + v
+    if t2.get('crash'):
+        tot['crash'] = t2['crash']
+    fails.extend(f2)
+
+
 class C07(Prop):
     name = 'C07'; module = 'C07'; claimed = True
     title = 'spans and slices are exact, well-formed and zero-copy'
@@ -3041,13 +3082,16 @@ class C07(Prop):
                   'matches and between the neighbouring tokens for gapped inputs (Lean); outputs of the real crate compared with reading '
                   'and model, spans checked against the input and for nesting; slices observed as pointer offsets')
 
-    bins = ['h_str_rich', 'h_slice_rich', 'h_mapped_rich', 'h_stream_rich', 'h_mstream_rich', 'h_inputs', 'h_str_empty', 'h_slice_empty']
+    bins = ['h_str_rich', 'h_slice_rich', 'h_mapped_rich', 'h_stream_rich', 'h_mstream_rich', 'h_inputs', 'h_str_empty', 'h_slice_empty', 'h_pratt']
 
     def custom_run(self, lines, tier, seed, jobs):
         import vcheck
-        tot, fails = vcheck.run_cases(self.name, lines, jobs=jobs, timeout=900 if tier == 'quick' else 3600)
+        tot, fails = vcheck.run_cases(self.name, [l for l in lines if not l.startswith('PR ')], jobs=jobs, timeout=900 if tier == 'quick' else 3600)
         # IterInput implements only `Input` (no whole-grammar build): its `span` is driven directly on call schedules —
         # spans of single pulls, from the first cursor, of empty matches, and of older cursor pairs asked again later
+        # the spans handed to the fold callbacks of Pratt operators (prefix / postfix / infix, repeated applications of one
+        # operator, recursive tables): C09's trees carry them
+        pratt_part('C07', lines, tier, seed, jobs, tot, fails, every=3)
         t = C10()
         t.name = 'C07'
         il = [] if len(lines) < 10 else [l for l in t.cases(tier, seed) if l.startswith('IN ') and l.split(' ')[2] == 'iterspan']
